@@ -537,7 +537,13 @@ class UnitsEngine(Engine):
         ctx.ev('op', 'refused', {'what': what}, {'raised': (not ok) and type(res).__name__})
         if not ok:
             ctx.probe('refused_reset_raised')
-        # whatever happened, the tables must be self-consistent and usable afterwards
+            # a request that was refused chose nothing: the units chosen by the last successful request are still in force
+            now = ut.base_of(nu)
+            if tuple(now) != tuple(st['base']):
+                raise Violation('C09.K4', {'what': 'a refused reset_units() changed the working units', 'case': what,
+                                           'exception': type(res).__name__, 'base_before': list(st['base']), 'base_after': list(now)},
+                                klass='refused-reset-changed-units/' + what)
+        # (not refused: adopt what is in force now) the tables must be self-consistent and usable afterwards
         st['base'] = ut.base_of(nu)
         st['epochs'] += 1
         st['last_kind'] = 'refused'
